@@ -161,7 +161,9 @@ def search(ctx):
                 if not (abs(csca - ray_sca) <= 1e-3 * ray_sca):
                     ctx.violation("C03:rayleigh", "small particle: scattering %g vs Rayleigh formula %g" % (csca, ray_sca), info)
             # one-sphere cluster solved by the multi-sphere theory
-            if not layered and 0.05 < x < 30 and i % 4 == 0:
+            # up to x = 24: beyond, the solver's 32 expansion orders truncate the sphere's own series (known finding
+            # C03:multisphere-one-sphere:beyond-32-orders; 2e-3 at x = 29.3, m = 1.28 -- a false alarm of this comparison until it was bounded)
+            if not layered and 0.05 < x < 24 and i % 4 == 0:
                 sc1 = Sphere(n=m * nm, r=x / kw, center=(0, 0, 0))
                 cm = calc_cross_sections(Spheres([sc1]), medium_index=nm, illum_wavelen=wl, illum_polarization=pol,
                                          theory=Multisphere(eps=1e-10, qeps1=1e-9, qeps2=1e-12)).values
